@@ -38,8 +38,32 @@ type FragmentBuffer struct {
 
 	currentMessageSequenceNumber uint16
 
+	// types of the most recently assembled messages, indexed by
+	// MessageSequence modulo the array length.
+	assembled [assembledHistory]assembledMessage
+
 	totalBufferSize    int
 	totalFragmentCount int
+}
+
+const assembledHistory = 32
+
+type assembledMessage struct {
+	sequence uint16
+	typ      handshake.Type
+	known    bool
+}
+
+// isRetransmissionOf reports whether a fragment below the current message
+// sequence can be a copy of the message that was assembled under its number.
+// A fragment of another type only borrows the number.
+func (f *FragmentBuffer) isRetransmissionOf(header handshake.Header) bool {
+	seen := f.assembled[header.MessageSequence%assembledHistory]
+	if !seen.known || seen.sequence != header.MessageSequence {
+		return true
+	}
+
+	return seen.typ == header.Type
 }
 
 // New creates an empty FragmentBuffer.
@@ -112,7 +136,9 @@ func (f *FragmentBuffer) pushHandshakeFragments(
 		}
 		if frag.handshakeHeader.MessageSequence < f.currentMessageSequenceNumber {
 			// any fragment from an already assembled message is a retransmission.
-			isRetransmit = true
+			if f.isRetransmissionOf(frag.handshakeHeader) {
+				isRetransmit = true
+			}
 			buf = buf[end:]
 
 			continue
@@ -195,6 +221,9 @@ func (f *FragmentBuffer) Pop() (content []byte, epoch uint16) {
 	f.totalFragmentCount -= len(frags.fragmentByOffset)
 
 	delete(f.cache, f.currentMessageSequenceNumber)
+	f.assembled[f.currentMessageSequenceNumber%assembledHistory] = assembledMessage{
+		sequence: f.currentMessageSequenceNumber, typ: firstHeader.Type, known: true,
+	}
 	f.currentMessageSequenceNumber++
 
 	return append(rawHeader, rawMessage...), messageEpoch
